@@ -42,6 +42,8 @@ RUNTIME_STATE_SYMS = ['rand', 'srand', 'random', 'srandom', 'drand48', 'lrand48'
 
 LIB_SRCS = ['clipper.engine.cpp', 'clipper.offset.cpp', 'clipper.rectclip.cpp']
 WORK_SRCS = ['work.cpp', 'workx.cpp']
+# compiled normally, or with -DSIM_COPY_STUB when the library type turned out not to be copyable (the copy operation is then skipped)
+OPTIONAL_SRCS = ['workcopy_off.cpp', 'workcopy_rc.cpp']
 EXE_SRCS = ['main.cpp', 'gen.cpp', 'plan.cpp', 'rt.cpp']
 
 
@@ -130,13 +132,23 @@ def build(cfg, verbose=False):
         # rt.cpp: no sanitizer at all (it reads its own poisoned block headers) and no builtin memset
         flags = [f for f in exe if not f.startswith('-fsanitize') and not f.startswith('-fno-sanitize')] + ['-fno-builtin'] if s == 'rt.cpp' else exe
         jobs.append([CXX] + flags + ['-c', os.path.join(SIM, s), '-o', os.path.join(tmp, s + '.o')])
-    with concurrent.futures.ThreadPoolExecutor(max_workers=len(jobs)) as ex:
+    def optional(src):
+        cmd = [CXX] + lib + ['-c', os.path.join(SIM, src), '-o', os.path.join(tmp, src + '.o')]
+        scratch = []
+        if run(cmd, scratch):
+            return True
+        ok = run(cmd + ['-DSIM_COPY_STUB'], log)
+        log.append('note: %s compiled as a stub (type not copyable in this tree)' % src)
+        return ok
+    with concurrent.futures.ThreadPoolExecutor(max_workers=len(jobs) + len(OPTIONAL_SRCS)) as ex:
+        fut = [ex.submit(optional, s_) for s_ in OPTIONAL_SRCS]
         oks = list(ex.map(lambda c: run(c, log), jobs))
+        oks += [f.result() for f in fut]
     if not all(oks):
         return None, '\n'.join(log)
     so = os.path.join(tmp, 'libclipsim.so')
     so_linker = ['clang'] if 'thread' in CONFIGS[cfg][0] else [CXX]
-    if not run(so_linker + [os.path.join(tmp, s + '.o') for s in LIB_SRCS + WORK_SRCS] + link_so + (['-lstdc++', '-lm'] if 'thread' in CONFIGS[cfg][0] else []) + ['-o', so], log):
+    if not run(so_linker + [os.path.join(tmp, s + '.o') for s in LIB_SRCS + WORK_SRCS + OPTIONAL_SRCS] + link_so + (['-lstdc++', '-lm'] if 'thread' in CONFIGS[cfg][0] else []) + ['-o', so], log):
         return None, '\n'.join(log)
     # TSan: libclang_rt.tsan_cxx (whole-archive) defines operator new/delete and would collide with the allocator
     # seam; linking through the C driver leaves it out (malloc/free interception is all that is needed).
@@ -145,7 +157,7 @@ def build(cfg, verbose=False):
     if not run(linker + [os.path.join(tmp, s + '.o') for s in EXE_SRCS] + ['-L' + tmp, '-lclipsim', '-Wl,-rpath,$ORIGIN'] + link_exe + cxxlibs +
                ['-o', os.path.join(tmp, 'sim')], log):
         return None, '\n'.join(log)
-    for s in LIB_SRCS + WORK_SRCS + EXE_SRCS:
+    for s in LIB_SRCS + WORK_SRCS + OPTIONAL_SRCS + EXE_SRCS:
         try:
             os.remove(os.path.join(tmp, s + '.o'))
         except OSError:
